@@ -29,6 +29,8 @@ type scOpt struct {
 	raw     bool // do not converge first (first deployment scenarios)
 	mons    []func(*w.MonCtx)
 	noFreq0 bool // keep the default reconcileFrequency (timed scenarios)
+	// tpl0: template tag of the initial object (default "A")
+	tpl0 string
 	// prepare: a longer directed history (user events, fair rounds) leading to the start state; not charged to the budget
 	prepare func(t *testing.T, sc *w.Scenario, st *w.State) *w.State
 	// nodeAnnots: annotations per node name (resource override annotations)
@@ -50,7 +52,11 @@ func mkScenario(t *testing.T, o scOpt) *w.Scenario {
 	if !o.noFreq0 {
 		opts = append([]w.EDSOpt{w.WithFrequency(0)}, opts...)
 	}
-	objs = append(objs, w.NewEDS("ns", "foo", "A", opts...))
+	tpl0 := "A"
+	if o.tpl0 != "" {
+		tpl0 = o.tpl0
+	}
+	objs = append(objs, w.NewEDS("ns", "foo", tpl0, opts...))
 	objs = append(objs, o.extra...)
 	st := w.NewState(0, objs...)
 	if !o.raw {
